@@ -99,4 +99,5 @@ EmitKeepUpInv == P!EmitKeepUp(cfg, Obs)
 GenSettleInv == P!GenSettle(cfg, Obs)
 Settle2Inv == P!Settle2(cfg, Obs)
 LiftClosesInv == P!LiftCloses(cfg, Obs)
+GenNoEarlyCloseInv == P!GenNoEarlyClose(cfg, Obs)
 ====
